@@ -154,3 +154,56 @@ def snippet_import_guard(P):
     if not imp:
         return False, "the sandboxed edge does not inspect the snippet's items"
     return True, "check_snippet: under enforce_sandbox each Import item is tested with starts_with(\"__\") and a refusal returns before check_toplevel_items"
+
+
+def read_src_regular_guard(P):
+    """shape of fix df32ae5: eval::read_src reads the import target only after a `metadata(path).is_file()` test whose
+    false edge returns without reading, both on the function's path parameter. Returns (ok, why)."""
+    f = P.funcs.get("eval::read_src")
+    if f is None:
+        return False, "eval::read_src not found"
+    reads = [(bi, t) for bi, t in f.calls() if (M.callee_name(t) or "") in ("std::fs::read", "std::fs::read_to_string")]
+    if not reads:
+        return False, "read_src does not read a file"
+    sws = D.call_switches(f, "::is_file", None)
+    if not sws:
+        return False, "read_src does not test `is_file()` before reading"
+
+    def from_param(op):
+        r = f.root_of(op, through_named=True)
+        for _ in range(4):
+            if r[0] == "call" and r[2]["args"]:
+                r = f.root_of(r[2]["args"][0], through_named=True)
+            else:
+                break
+        return r[0] == "place" and 1 <= r[1]["l"] <= f.argc and r[1]["l"]
+    for sw in sws:
+        md = f.root_of(sw["call"]["args"][0], through_named=True)
+        # the Metadata tested comes from std::fs::metadata(<path parameter>)
+        src = None
+        cur = md
+        for _ in range(6):
+            if cur[0] == "place":
+                dd = [d for d in f.defs.get(cur[1]["l"], []) if d[1] == "term"]
+                if len(dd) != 1:
+                    break
+                cur = ("call", dd[0][0], dd[0][2])
+                continue
+            if cur[0] == "call":
+                if (M.callee_name(cur[2]) or "") in ("std::fs::metadata", "std::fs::symlink_metadata"):
+                    src = from_param(cur[2]["args"][0])
+                    break
+                if not cur[2]["args"]:
+                    break
+                cur = f.root_of(cur[2]["args"][0], through_named=True)
+            else:
+                break
+        if not src:
+            continue
+        if sw["false"] is None:
+            continue
+        after_refusal = D.reach_from(f, [sw["false"]])
+        if all(bi not in after_refusal and f.dominates(sw["bb"], bi) is not None and from_param(t["args"][0]) == src for bi, t in reads):
+            if all(bi in D.reach_from(f, [0]) for bi, _ in reads):
+                return True, "read_src: std::fs::read(path) is not reachable once metadata(path).is_file() is false"
+    return False, "no `metadata(path).is_file()` test whose false edge avoids the read of the same path"
